@@ -10,9 +10,9 @@ SIMS = {
     "8008": ("Simulate8008", ["disasm/8008.cpp", "table/8008.cpp"], "C15/wf_8008.h", 26, "quick"),
     "1802": ("Simulate1802", ["disasm/1802.cpp", "table/1802.cpp"], "C15/wf_1802.h", 140, "quick"),
     "6502": ("Simulate6502", ["disasm/6502.cpp", "table/6502.cpp"], "C15/wf_6502.h", 140, "quick"),
-    "tms1000": ("SimulateTms1000", ["disasm/tms1000.cpp", "table/tms1000.cpp"], "C15/wf_tms1000.h", 140, "thorough"),
-    "f100_l": ("SimulateF100L", ["disasm/f100_l.cpp"], None, 140, "thorough"),
-    "ebpf": ("SimulateEbpf", [], None, 140, "thorough"),
+    "tms1000": ("SimulateTms1000", ["disasm/tms1000.cpp", "table/tms1000.cpp"], "C15/wf_tms1000.h", 140, "quick"),
+    "f100_l": ("SimulateF100L", ["disasm/f100_l.cpp"], None, 140, "quick"),
+    "ebpf": ("SimulateEbpf", [], None, 140, "quick"),
 }
 ADDR_MAX = {"6502": "0xffffu", "1802": "0xffffu", "tms9900": "0xffffu", "8008": "0xffffu", "lc3": "0x1ffffu"}
 GROUPS = []
